@@ -286,6 +286,31 @@ pub fn run() -> i32 {
     r.boxes.push(json!({"box": "modifiers on an environment element (before / after the target, context / exception)", "rules": ejobs.len(), "cases": te.evals, "fired": te.nt}));
     r.guard(te.nt * 10 > te.evals, "environment box: at least 10% of the cases fire");
     tot.evals += te.evals; tot.nt += te.nt; tot.viols.extend(te.viols); tot.outs.extend(te.outs);
+    // ---- box 4: a length modifier on a variable inside an OUTPUT STRUCTURE (`⟨C V=1⟩ > ⟨p 1:[m]⟩`): the captured vowel is written back with the
+    // length the table gives for its own length and the modifier
+    {
+        let mods: [(&str, fn(usize) -> usize); 7] = [("+long", |l| l.max(2)), ("-long", |_| 1), ("+overlong", |_| 3), ("-overlong", |l| l.min(2)), ("+long, -overlong", |_| 2), ("+long, +overlong", |_| 3), ("-long, -overlong", |_| 1)];
+        let mut t4 = acc();
+        for (m, f) in mods { for shape in 0..3usize { for len in 1..=3usize { for stress in 0..3u8 { for tone in TONES {
+            let (text, before, after): (String, Vec<&str>, Vec<&str>) = match shape { 0 => (format!("⟨C V=1⟩ > ⟨p 1:[{}]⟩", m), vec!["t"], vec![]), 1 => (format!("⟨V=1 C⟩ > ⟨1:[{}] p⟩", m), vec![], vec!["t"]), _ => (format!("⟨C V=1 C⟩ > ⟨p 1:[{}] p⟩", m), vec!["t"], vec!["n"]) };
+            let Out::Ok(Ok(compiled)) = guarded(5_000_000, || av::compile(&[group(&[&text])])) else { t4.viols.push(Viol { key: format!("compile|{}", text), desc: format!("`{}` does not compile", text), case: json!({"rule": text}) }); continue; };
+            let a = seg("a");
+            let mut segs: Vec<SegBits> = before.iter().map(|x| seg(x)).collect(); for _ in 0..len { segs.push(a); } segs.extend(after.iter().map(|x| seg(x)));
+            let w: CW = vec![CSyl { segs, stress, tone }];
+            let mut es: Vec<SegBits> = before.iter().map(|_| seg("p")).collect(); for _ in 0..f(len) { es.push(a); } es.extend(after.iter().map(|_| seg("p")));
+            let e: CW = vec![CSyl { segs: es, stress, tone }];
+            t4.evals += 1;
+            match run_one(&compiled, &w, &text) {
+                Out::Ok(Ok(g)) if g == e => { t4.nt += 1; t4.outs.insert(hash64(&g)); }
+                Out::Ok(Ok(g)) => t4.viols.push(Viol { key: format!("struct-var-length|{}|len{}", text, len), desc: format!("`{}` on /{}/: a vowel of length {} written back with [{}] has length {} by the table, expected /{}/, got /{}/", text, show_cw(&w), len, m, f(len), show_cw(&e), show_cw(&g)), case: json!({"env": true, "rule": text, "word": cw_json(&w), "expected": cw_json(&e)}) }),
+                Out::Ok(Err(er)) => t4.viols.push(Viol { key: format!("struct-var-length|{}|error", text), desc: format!("`{}` on /{}/: error {}", text, show_cw(&w), er), case: json!({"env": true, "rule": text, "word": cw_json(&w), "expected": cw_json(&e)}) }),
+                o => t4.viols.push(Viol { key: format!("struct-var-length|crash|{}", text), desc: o.crash_desc().unwrap(), case: json!({"env": true, "rule": text, "word": cw_json(&w), "expected": cw_json(&e)}) }),
+            }
+        } } } } }
+        r.boxes.push(json!({"box": "length modifiers on a variable inside an output structure (7 modifiers x 3 shapes x 36 states)", "cases": t4.evals, "as_table": t4.nt}));
+        r.guard(t4.evals > 700, "box 4 ran");
+        tot.evals += t4.evals; tot.nt += t4.nt; tot.viols.extend(t4.viols); tot.outs.extend(t4.outs);
+    }
     // ---- box 3: two neighbouring targets in one rule, the first output changing the length of its target (so that the second target moves), written
     // as a matrix, as the literal, and through a variable: `V=1 n > 1:[-long] [+long]` on /t3.s<a-run>n.k/ — each target ends up as the table says
     let first_outs: [(&str, &str, u8); 9] = [("V", "[-long]", 2), ("V", "[+long]", 1), ("V", "[+overlong]", 3), ("V", "[-overlong]", 4), ("V", "a", 2), ("V", "a:[+long]", 5), ("V=1", "1:[-long]", 2), ("V=1", "1:[+long]", 1), ("V=1", "1:[-overlong]", 4)];
